@@ -101,6 +101,10 @@ func monitor(c *vh.Ctx, rp Replay, obs []rh.CObs) {
 		switch ev.Ev {
 		case "connect":
 			connected[ev.Peer], failing[ev.Peer] = true, false
+		case "sleep":
+			for p := range connected {
+				connected[p] = false
+			}
 		case "disconnect":
 			connected[ev.Peer] = false
 		case "setfail":
@@ -293,6 +297,11 @@ func generate(r *vh.Rand, n int, run *rh.ControlRunner) (Replay, []rh.CObs) {
 			if p != blockedOn {
 				do(rh.CEvent{Ev: "setfail", Peer: p, Fail: r.Chance(1, 2)})
 			}
+		case k == 19 && blockedOn == 0 && r.Chance(1, 3):
+			do(rh.CEvent{Ev: "sleep"})
+			for p := 1; p <= 4; p++ {
+				do(rh.CEvent{Ev: "connect", Peer: p})
+			}
 		case k == 19:
 			p := 1 + r.Intn(4)
 			if p == blockedOn {
@@ -348,6 +357,13 @@ func witnesses() []Replay {
 			rh.CEvent{Ev: "resp", From: 4, RefTag: 42, Tag: answer(4, 42)},
 			rh.CEvent{Ev: "resp", From: 4, RefTag: 41, Tag: answer(4, 41)},
 			rh.CEvent{Ev: "resp", From: 4, RefTag: 44, Tag: answer(4, 44)}),
+		w("sleep-between-relayed-requests",
+			rh.CEvent{Ev: "req", From: 1, ID: 1, Target: 3, Path: []int{3}, Tag: 51}, // relayed under the transit's id 1, target silent
+			rh.CEvent{Ev: "sleep"},
+			rh.CEvent{Ev: "connect", Peer: 1}, rh.CEvent{Ev: "connect", Peer: 2}, rh.CEvent{Ev: "connect", Peer: 3}, rh.CEvent{Ev: "connect", Peer: 4},
+			rh.CEvent{Ev: "req", From: 2, ID: 1, Target: 4, Path: []int{4}, Tag: 52}, // must travel under id 2: the id space is not restarted
+			rh.CEvent{Ev: "resp", From: 3, RefTag: 51, Tag: answer(3, 51)},           // the late answer belongs to requester 1
+			rh.CEvent{Ev: "resp", From: 4, RefTag: 52, Tag: answer(4, 52)}),
 		w("no-collision",
 			rh.CEvent{Ev: "req", From: 1, ID: 1, Target: 3, Path: []int{3}, Tag: 55},
 			rh.CEvent{Ev: "req", From: 2, ID: 2, Target: 4, Path: []int{4}, Tag: 66},
